@@ -256,6 +256,33 @@ def _rel_case(args):
         conds[k] = c
     qs = [cond(b, a) for b, a in qtexts]
     if mode == "or":
+        # direct inference under sparse keys (the key set contains len(D)+1 and skips a number):
+        # every conditional of D must be inferred by every operator
+        n = len(texts)
+        rk = {}
+        for pos, k in enumerate(sorted(texts)):
+            rk[k] = pos + 1 if pos + 1 < n else n + 1
+        if n >= 2:
+            rk[sorted(texts)[0]] = n + 3
+        sconds = {}
+        for k, (b, a) in texts.items():
+            c = cond(b, a)
+            c.index = rk[k]
+            sconds[rk[k]] = c
+        own = [cond(b, a) for b, a in texts.values()]
+        for system, pm in SYSTEMS:
+            try:
+                got = run_real(sig, sconds, own, system, pm, False)
+            except AssertionError:
+                break
+            except BaseException as e:  # noqa
+                out["violations"].append(dict(module="extra", kind="relx-exception", system=system, pmaxsat=pm, input=describe(sig, sconds, own), observed=f"{type(e).__name__}: {e}"))
+                continue
+            out["evaluations"] += len(own)
+            for q, g in zip(own, got):
+                if not g:
+                    out["violations"].append(dict(module="extra", kind="c09x-direct-inference-sparse-keys", system=system, pmaxsat=pm, input=describe(sig, sconds, [q]), expected=True, observed=False))
+    if mode == "or":
         # Or: (C|A), (C|B)  =>  (C|A;B) for pairs of the delicate queries
         inst = []
         for i in range(len(qtexts)):
@@ -272,7 +299,7 @@ def _rel_case(args):
         def wtext():
             return "(" + ",".join((a if rng.random() < 0.5 else "!" + a) for a in sig) + ")"
 
-        for _ in range(8):
+        for _ in range(20):
             V, F1, F2 = wtext(), wtext(), wtext()
             if len({V, F1, F2}) == 3:
                 inst.append(((V, f"({V};{F1})"), (V, f"({V};{F2})"), (V, f"(({V};{F1});({V};{F2}))")))
